@@ -13,15 +13,16 @@ import (
 func init() { corrTable["C15"] = func(r *Run) { connInChild(r, corrC15) } }
 
 var c15Terms = []string{"eof", "read-error", "read-timeout", "parent-cancel", "close-answered", "close-answered-early",
-	"close-unsolicited-behind-unbind_resp", "own-context"}
+	"close-unsolicited-behind-unbind_resp", "own-context", "read-error-mid-frame", "read-timeout-mid-frame", "close-write-fails"}
 
 func corrC15(r *Run) {
 	r.Import("Model.ConnRun")
 	r.PerShard(8)
-	r.Rule = "teardown placements: terminating event in {peer EOF, read error, read timeout (scripted and by the library's own read deadline), parent-context cancel, " +
+	r.Rule = "teardown placements: terminating event in {peer EOF, read error, read timeout (scripted and by the library's own read deadline; reported once or for good; between frames or inside a frame: in its header, right behind it, in its body), parent-context cancel, Close whose transport Write fails, " +
 		"Close with answered unbind (response after / before the Write returned / followed at once by an unsolicited PDU nobody receives), Close with unanswered unbind (1 s), " +
 		"keep-alive failure (enquire_link unanswered, then unbind answered or unanswered), keep-alive idle or in flight at peer EOF, a caller's own context} " +
-		"x 0..4 (and 17, 33, 65) outstanding Submit calls each with its Write held or returned x {no inbound traffic, unsolicited PDUs queued before the event, Watch blocked handing a PDU to an absent consumer}; " +
+		"x 0..4 (and 17, 33, 65) outstanding Submit calls each with its Write held or returned x {no inbound traffic, unsolicited PDUs queued before the event, Watch blocked handing a PDU to an absent consumer, a peer REQUEST carrying the sequence number of an outstanding Submit}; " +
+		"a Submit begun after the teardown; keep-alive whose transport Write fails, keep-alive over several ticks; " +
 		"first the minimised pre-repair witnesses (D27, D28, D28 at EOF, blocked delivery, repeated response); " +
 		"non-trivial = placements with at least one Submit blocked at the event; distinct by event list"
 	ts := pduTypes()
@@ -51,8 +52,9 @@ func corrC15(r *Run) {
 }
 
 type c15Sub struct {
-	c    *Call
-	held bool
+	c        *Call
+	held     bool
+	collided bool // the peer sent a PDU with this call's sequence number: the call may have returned it
 }
 
 // c15Common runs the checks every teardown shares: no panic, Done() closed, blocked Submit calls returned an error promptly.
@@ -72,6 +74,8 @@ func c15Common(r *Run, w *World, input, term string, subs []*c15Sub, t0 time.Tim
 		case !w.Returned(c):
 			r.Fail("submit-blocked/"+term, "a blocked Submit was not released by the teardown", input,
 				fmt.Sprintf("Submit seq=%d still blocked", c.Seq), "returns a non-nil error")
+		case c.Err == nil && s.collided && c.Resp != nil && pdu.ReadSequence(c.Resp) == c.Seq:
+			// by the sequence number that PDU was its response
 		case c.Err == nil:
 			r.Fail("submit-no-error/"+term, "a Submit released by the teardown returned nil", input, c.Class(), "non-nil error")
 		case !s.held && c.RetAt.Sub(t0) > promptly:
@@ -83,7 +87,9 @@ func c15Common(r *Run, w *World, input, term string, subs []*c15Sub, t0 time.Tim
 
 func c15Scenario(r *Run, ts []pduType, idx int, term string) {
 	rng := r.Rng
-	inflight := rng.Intn(3) // 0 none, 1 unsolicited PDUs queued before the event, 2 Watch blocked in a delivery nobody receives
+	// 0 none, 1 unsolicited PDUs queued before the event, 2 Watch blocked in a delivery nobody receives,
+	// 3 a request of the peer that carries the sequence number of an outstanding Submit
+	inflight := rng.Intn(4)
 	if term == "close-unsolicited-behind-unbind_resp" {
 		inflight = 0
 	}
@@ -98,6 +104,9 @@ func c15Scenario(r *Run, ts []pduType, idx int, term string) {
 	fresh := func() int32 { seq += int32(1 + rng.Intn(3)); return seq }
 	var subs []*c15Sub
 	k := rng.Intn(5)
+	if inflight == 3 && k == 0 {
+		k = 1 + rng.Intn(4)
+	}
 	for g := 0; g < k; g++ {
 		c := w.Go(g, CallSpec{Kind: "submit", Seq: fresh(), P: genSendable(rng, ts, true, 600)})[0]
 		s := &c15Sub{c: c, held: true}
@@ -119,8 +128,16 @@ func c15Scenario(r *Run, ts []pduType, idx int, term string) {
 		w.Peer(fs, cs)
 	case 2:
 		w.Peer([][]byte{genUnsolicited(rng, ts, fresh())}, nil) // gated consumer, no grant: Watch stays in the send
+	case 3:
+		// the peer numbers its own requests itself: one of them carries the number of an outstanding Submit.
+		// Whatever the connection makes of it, that Submit still ends with its context and with the connection.
+		x := subs[rng.Intn(len(subs))]
+		x.collided = true
+		f := expectedFrame(genSendable(rng, ts, true, 600), x.c.Seq)
+		w.Peer([][]byte{f}, [][]int{genCuts(rng, len(f))})
 	}
 	needWatch := true
+	closeFails := false
 	t0 := time.Now()
 	var cl *Call
 	switch term {
@@ -129,7 +146,28 @@ func c15Scenario(r *Run, ts []pduType, idx int, term string) {
 	case "read-error":
 		w.PeerEnd(errScriptedReset)
 	case "read-timeout":
-		w.PeerEnd(timeoutErr{})
+		if rng.Bool() {
+			w.PeerEndOnce(timeoutErr{}) // a timeout is reported once; the transport itself is still there
+		} else {
+			w.PeerEnd(timeoutErr{})
+		}
+	case "read-error-mid-frame", "read-timeout-mid-frame":
+		// the transport fails while Watch is inside a frame: in its header, right behind it, in its body
+		var f []byte
+		for len(f) < 20 {
+			f = genUnsolicited(rng, ts, fresh())
+		}
+		cut := []int{16, 16, 17 + rng.Intn(len(f)-17), 17 + rng.Intn(len(f)-17), 1 + rng.Intn(15)}[rng.Intn(5)]
+		if term == "read-timeout-mid-frame" {
+			w.PeerTrunc(f, cut, timeoutErr{}, rng.Intn(3) != 0)
+		} else {
+			w.PeerTrunc(f, cut, errScriptedReset, rng.Bool())
+		}
+	case "close-write-fails":
+		// the unbind cannot be written: Close returns the error; it cancels the connection all the same
+		cl = w.Go(100, CallSpec{Kind: "close", Seq: fresh(), WriteFails: true})[0]
+		needWatch = inflight == 2
+		closeFails = true
 	case "parent-cancel":
 		w.CancelParent()
 		needWatch = inflight == 2 // parked in Read it cannot notice; blocked in the delivery it must
@@ -156,8 +194,22 @@ func c15Scenario(r *Run, ts []pduType, idx int, term string) {
 		}
 	case "own-context":
 		// a caller's own context ends: that caller returns, the others stay; then EOF ends the rest
-		if len(subs) > 0 {
-			x := subs[rng.Intn(len(subs))]
+		var open []*c15Sub
+		was := map[*c15Sub]bool{}
+		for _, o := range subs {
+			if w.Returned(o.c) {
+				was[o] = true // (it took the peer's colliding request for its response)
+			} else {
+				open = append(open, o)
+			}
+		}
+		if len(open) > 0 {
+			x := open[rng.Intn(len(open))]
+			for _, o := range open {
+				if o.collided {
+					x = o
+				}
+			}
 			tc := time.Now()
 			w.CancelCtx(x.c)
 			if x.held {
@@ -165,11 +217,12 @@ func c15Scenario(r *Run, ts []pduType, idx int, term string) {
 				x.held = false
 			}
 			input := "sched " + w.Script()
-			if !w.Returned(x.c) || x.c.Err == nil || x.c.RetAt.Sub(tc) > promptly {
+			tookIt := x.collided && x.c.Err == nil && x.c.Resp != nil && pdu.ReadSequence(x.c.Resp) == x.c.Seq
+			if !w.Returned(x.c) || (x.c.Err == nil && !tookIt) || x.c.RetAt.Sub(tc) > promptly {
 				r.Fail("submit-outlives-context", "a Submit call outlived its own context", input, x.c.Class(), "returns ctx.Err() promptly")
 			}
 			for _, o := range subs {
-				if o != x && w.Returned(o.c) {
+				if o != x && !was[o] && w.Returned(o.c) {
 					r.Fail("submit-foreign-context", "cancelling one caller's context released another caller", input, o.c.Class(), "blocked")
 				}
 			}
@@ -188,6 +241,14 @@ func c15Scenario(r *Run, ts []pduType, idx int, term string) {
 			w.Release(s.c)
 		}
 	}
+	// a Submit begun after the teardown: its frame may still reach the transport; it returns an error
+	var late *Call
+	if rng.Intn(3) == 0 && w.Stuck == "" && w.doneClosed() {
+		late = w.Go(200, CallSpec{Kind: "submit", Seq: fresh(), P: genSendable(rng, ts, true, 300)})[0]
+		if w.Held(late) {
+			w.Release(late)
+		}
+	}
 	input := "sched " + w.Script()
 	r.Count(input, k > 0, fmt.Sprintf("%s/outstanding=%d/inflight=%d", term, k, inflight))
 	if idx < 2 {
@@ -197,7 +258,14 @@ func c15Scenario(r *Run, ts []pduType, idx int, term string) {
 		return
 	}
 	c15Common(r, w, input, term, subs, t0, needWatch)
-	if cl != nil {
+	if late != nil && (!w.Returned(late) || late.Err == nil) {
+		r.Fail("submit-after-teardown/"+term, "a Submit begun after the teardown did not return an error", input, late.Class(), "non-nil error")
+	}
+	if cl != nil && closeFails {
+		if !w.Returned(cl) || cl.Err == nil {
+			r.Fail("close-result/"+term, "Close whose unbind could not be written did not return the error", input, cl.Class(), "non-nil error")
+		}
+	} else if cl != nil {
 		if !w.Returned(cl) || cl.Err != nil {
 			r.Fail("close-result/"+term, "Close with an answered unbind did not return nil", input, cl.Class(), "nil")
 		}
